@@ -73,6 +73,13 @@ def sorter(args):
         ctx.check('no-domination-inside-a-front',
                   Or(*[D[i][j] for i in range(n) for j in range(n) if i != j and fr[i] == fr[j]]))
         ctx.check('fronts-contiguous', sorted(set(fr)) != list(range(1, max(fr) + 1)))
+        # multi-step: the SAME selector object sorts the same individuals again, in another order (what NSGA-II does
+        # every generation with survivors); the ranks must come out the same
+        if n >= 2 and not crowd:
+            again = list(reversed(inds))
+            sel.fast_nondominated_sorting(again)
+            fr2 = [by_id[k].features['front_number'] for k in range(n)]
+            ctx.check('re-sorting-in-another-order-gives-the-same-ranks', fr2 != fr)
     return common.merge_stats(body, st)
 
 
